@@ -64,7 +64,7 @@ REG = {
         "assumptions": ["lean/Model/Const.lean mirrors _attribute.py/_primitive.py (validated by the const correspondence on every run)"],
     },
     "C13": {
-        "module": "Props.C13",
+        "module": ["Props.C13", "Props.C13Gen"],
         "suites": [("garbage", (4000, 150000))],
         "rule": "five streams: token-level mutations (delete/duplicate/swap/replace/insert, 1-3 per text) of 8 valid definitions incl. a service, a union, references to other types; character noise "
                 "(punctuation, every C0 control, DEL, NEL, NBSP, LS/PS, BOM, ZWSP, RLO, combining marks, non-ASCII digits, astral characters) and pure noise; targeted arithmetic corner cases as "
@@ -82,7 +82,8 @@ REG = {
                       "full DSDL reader in this group) are covered by the differential streams only.",
         "partial": ["completeness of the hazard list is validated only by the differential streams",
                     "random garbage texts are judged by the oracle only (the Lean side predicts outcomes for the modelled expression cases)",
-                    "file names: the model covers the ASCII part of CPython's int() rule"],
+                    "file names: proved over the code generated from DSDLDefinition.__init__ / _parse_decimal for every Unicode text (C13.gen_filename_total); the meaning of int() / str.isdigit() in PyLib is "
+                    "CPython's rule on ASCII text only - the translated code reaches them behind str.isascii(); pathlib (how the root name, base name and directory names are obtained) is not translated"],
         "assumptions": ["lean/Model/Const.lean (funnel, hazards) mirrors _parser.parse, DSDLDefinition.read, _read_definitions (validated by the garbage correspondence on every run)"],
     },
 }
